@@ -114,7 +114,7 @@ pub fn silence_panics() {
                 // keep the path from the crate name on (registry / repo prefixes differ between machines)
                 let short = f.rsplit("/src/").next().unwrap_or(f);
                 let krate = f.rsplit("/src/").nth(1).and_then(|p| p.rsplit('/').next()).unwrap_or("");
-                format!("{krate}/src/{short}")
+                if std::env::var("MWH_PANIC_LINE").is_ok() { format!("{krate}/src/{short}:{}", l.line()) } else { format!("{krate}/src/{short}") }
             })
             .unwrap_or_default();
         if info.location().map(|l| l.file().starts_with("src/")).unwrap_or(false) {
